@@ -23,8 +23,9 @@ import struct
 
 from harness import c04
 
-STREAMS = ['recv-exhaustive', 'recv-random', 'recv-malformed', 'sender-layout', 'sender-callremote']
-THEOREMS = ['sender_layout', 'attribution']
+STREAMS = ['recv-exhaustive', 'recv-random', 'recv-handshake', 'recv-malformed', 'sender-layout',
+           'sender-callremote']
+THEOREMS = ['sender_layout', 'attribution', 'attribution_after_handshake']
 TRUSTED_BASE = [
     'the message parser is an abstract parameter of the receiver model (raw message -> declared unix_fds, '
     'indices of its h arguments); the harness tabulates it by parsing each raw message with a probe list',
@@ -82,7 +83,11 @@ def gen_arg(rng, nxt, depth=0):
         d = {}
         tree = []
         for k in range(n):
-            fd = nxt()
+            fd = nxt(fresh=True)
+            while fd in d:
+                fds.pop()
+                fd = base + 50 + len(fds)
+                fds.append(fd)
             d[fd] = 'v%d' % k
             tree.append([('h', fd), 'p'])
         return 'a{hs}', d, tree
@@ -90,11 +95,16 @@ def gen_arg(rng, nxt, depth=0):
 
 
 def gen_body(rng, base, want=None):
-    """-> (sig or None, body or None, trees, fds in argument order)"""
+    """-> (sig or None, body or None, trees, fds in argument order).  Descriptor VALUES may repeat
+    within a message (stdout and stderr being the same file) and, through `base`, across messages."""
     fds = []
+    repeat = rng.random() < 0.35
 
-    def nxt():
-        fds.append(base + len(fds))
+    def nxt(fresh=False):
+        if repeat and fds and not fresh and rng.random() < 0.5:
+            fds.append(rng.choice(fds))
+        else:
+            fds.append(base + len(fds))
         return fds[-1]
     for _ in range(200):
         del fds[:]
@@ -156,7 +166,9 @@ def build_raw(rng, mtype, sig, body, big, serial):
 def gen_msg(rng, i, want=None):
     """Message number i of a sequence.  -> dict(raw, fds, sig)"""
     marshal, message, _ = _mods()
-    sig, body, trees, fds = gen_body(rng, 1000 * (i + 1), want)
+    # mostly a range of its own per message; sometimes a range shared by all messages (values repeat
+    # across messages)
+    sig, body, trees, fds = gen_body(rng, 1000 * (i + 1) if rng.random() < 0.8 else 7, want)
     big = rng.random() < 0.3
     mtype = rng.choice([1, 1, 2, 3, 4])
     serial = rng.choice([i + 1, 2573, 3338])
@@ -215,14 +227,17 @@ def info_of(raw):
 _CLS = {}
 
 
-def recv_class(ctx):
+def recv_classes(ctx):
+    """-> (P: BasicDBusProtocol with the delivery log, PServer: the same on BusProtocol)"""
     if ctx.repo not in _CLS:
         marshal, message, protocol = _mods()
+        from txdbus import bus
 
-        class P(protocol.BasicDBusProtocol):
+        class Rec:
             def rawDBusMessageReceived(self, raw):
                 qb = list(self._receivedFDs)
                 self._last = None
+                # BasicDBusProtocol's method also for the bus protocol (its own override is C14's)
                 protocol.BasicDBusProtocol.rawDBusMessageReceived(self, raw)
                 m = self._last
                 args = []
@@ -235,18 +250,52 @@ def recv_class(ctx):
                 self._last = m
 
             methodReturnReceived = errorReceived = signalReceived = methodCallReceived
-        _CLS[ctx.repo] = P
+
+        class P(Rec, protocol.BasicDBusProtocol):
+            pass
+
+        class PServer(Rec, bus.BusProtocol):
+            pass
+        _CLS[ctx.repo] = (P, PServer)
     return _CLS[ctx.repo]
 
 
-def observe(ctx, events):
+def observe(ctx, events, mode='binary', script=''):
     from twisted.internet.testing import StringTransport
-    P = recv_class(ctx)
-    p = P()
-    p.log = []
-    p.transport = StringTransport()
-    p._receivedFDs = []
-    p._authenticated = True
+    from txdbus import protocol
+    P, PServer = recv_classes(ctx)
+    protocol._is_linux = False
+    wrap = None
+    if mode == 'binary':
+        p = P()
+        p.log = []
+        p.transport = StringTransport()
+        p._receivedFDs = []
+        p._authenticated = True
+    else:
+        _, _, StubAuth, Wrap, authentication = c04.classes(ctx)
+        if mode in ('stub-client', 'stub-server'):
+            p = P()
+            p._client = (mode == 'stub-client')
+            cls = type('StubAuthS', (StubAuth,), {'script': script})
+            from zope.interface import classImplements
+            classImplements(cls, protocol.IDBusAuthenticator)
+            p.authenticator = cls
+        elif mode == 'real-client':
+            p = P()
+            p._client = True
+            p.authenticator = authentication.ClientAuthenticator
+        elif mode == 'real-server':
+            p = PServer()
+        else:
+            raise ValueError(mode)
+        p.log = []
+        p.effects = []
+        p.factory = c04._FakeFactory()
+        p.makeConnection(StringTransport())
+        if mode.startswith('real'):
+            wrap = Wrap(p._dbusAuth, p)
+            p._dbusAuth = wrap
     crashed = None
     for ev in events:
         try:
@@ -258,24 +307,31 @@ def observe(ctx, events):
             crashed = type(e).__name__
             break
     ctx.impl_trace()
-    return {'log': p.log, 'buffer': bytes(p._buffer).hex(), 'queue': list(p._receivedFDs), 'crashed': crashed}
+    return {'log': p.log, 'buffer': bytes(p._buffer).hex(), 'queue': list(p._receivedFDs), 'crashed': crashed,
+            'script': ''.join(wrap.script) if wrap is not None else script,
+            'auth': 1 if p._authenticated else 0, 'closed': 1 if p.transport.disconnecting else 0}
 
 
 def nl(l):
     return ','.join('None' if x is None else str(x) for x in l) if l else '-'
 
 
-def impl_line(o):
+def impl_line(o, mode='binary'):
     ds = ['D %s a=%s b=%s q=%s' % (d['raw'] or '-', nl(d['args']), nl(d['qb']), nl(d['qa'])) for d in o['log']]
-    return ' '.join(ds) + ' | ' + (o['buffer'] or '-') + ' ' + nl(o['queue'])
+    tail = '' if mode == 'binary' else ' %d %d' % (o['auth'], o['closed'])
+    return ' '.join(ds) + ' | ' + (o['buffer'] or '-') + ' ' + nl(o['queue']) + tail
 
 
-def model_line(sc):
+def model_line(sc, script=''):
     raws = []
     for h in sc['raws']:
         if h not in raws:
             raws.append(h)
-    toks = ['V', str(len(raws))]
+    mode = sc.get('mode', 'binary')
+    if mode == 'binary':
+        toks = ['V', str(len(raws))]
+    else:
+        toks = ['W', '0' if mode.endswith('server') else '1', script or '-', str(len(raws))]
     for h in raws:
         decl, idx = info_of(bytes.fromhex(h))
         toks += [h, '-' if decl is None else str(decl), nl(idx)]
@@ -288,6 +344,7 @@ def judge(sc, o):
     """Oracle on the implementation alone.  -> (key, what) or (None, None)."""
     msgs = sc['msgs']          # [{'raw': hex, 'fds': [...]}] in sending order
     total = b''.join(bytes.fromhex(e[1:]) for e in sc['events'] if e[0] == 'r')
+    total = total[len(sc.get('handshake', '')) // 2:]      # the messages follow the handshake
     # messages whose last byte has been read
     done, pos = 0, 0
     for m in msgs:
@@ -325,16 +382,17 @@ class Batch:
         items, self.items = self.items, []
         if not items:
             return
-        obs = [observe(ctx, sc['events']) for _, sc, _ in items]
-        out = ctx.model([model_line(sc) for _, sc, _ in items])
+        obs = [observe(ctx, sc['events'], sc.get('mode', 'binary'), sc.get('script', '')) for _, sc, _ in items]
+        out = ctx.model([model_line(sc, o['script']) for (_, sc, _), o in zip(items, obs)])
         for k, ((stream, sc, oracle), o) in enumerate(zip(items, obs)):
             withfd = any(d['args'] for d in o['log'])
-            ctx.case(stream, sample={'msgs': sc['msgs'], 'events': sc['events']}, nontrivial=withfd)
+            ctx.case(stream, sample={'mode': sc.get('mode', 'binary'), 'msgs': sc['msgs'], 'events': sc['events']},
+                     nontrivial=withfd)
             ctx.stat('%s:msgs=%d' % (stream, len(sc['msgs'])))
             ctx.stat('%s:fds-total=%s' % (stream, c04.bucket(sum(len(m['fds']) for m in sc['msgs']))))
             ctx.stat('%s:max-early-queue=%s' % (stream, c04.bucket(max([len(d['qa']) for d in o['log']] or [0]))))
             if out is not None:
-                il = impl_line(o)
+                il = impl_line(o, sc.get('mode', 'binary'))
                 if out[k] != il and not o['crashed']:
                     ctx.disagree(stream, sc, c04.clip(out[k]), c04.clip(il))
             if oracle:
@@ -448,6 +506,82 @@ def stream_recv_random(ctx, B):
         fds = [d for m in msgs for d in m['fds']]
         dl = deadlines(msgs, reads)
         B.add('recv-random', scenario(msgs, interleave(reads, fds, random_slots(rng, dl, len(reads)))))
+    B.flush()
+
+
+def hs_scenario(mode, hs, script, msgs, events):
+    sc = scenario(msgs, events)
+    sc.update(mode=mode, handshake=hs.hex(), script=script)
+    return sc
+
+
+def handshake_of(rng, mode):
+    """-> (handshake bytes, stub script)"""
+    if mode.startswith('real'):
+        return c04.handshake_for(rng, mode), ''
+    lines = [rng.choice([b'AUTH X', b'', b'DATA', b'x']) for _ in range(rng.choice([0, 0, 1, 2]))] + [b'BEGIN']
+    hs = b''.join(l + b'\r\n' for l in lines)
+    if mode == 'stub-server':
+        hs = b'\0' + hs
+    return hs, 'c' * (len(lines) - 1) + 's'
+
+
+def stream_recv_handshake(ctx, B):
+    """The connection starts in line mode; descriptors arrive before, among and together with the reads
+    that carry the handshake.  Short cases: every subset of candidate cuts x every consistent slot
+    assignment; then random ones."""
+    rng = ctx.rng
+    modes = ['stub-client', 'stub-server', 'real-client', 'real-server']
+    n_seq = ctx.scale(quick=8, thorough=120)
+    for i in range(n_seq):
+        mode = modes[i % 4]
+        hs, script = handshake_of(rng, mode)
+        n = rng.choice([1, 2, 2])
+        wants = [rng.choice([1, 1, 2, 0]) for _ in range(n)]
+        if sum(wants) == 0:
+            wants[0] = 1
+        if sum(wants) > 3:
+            wants = [1] * n
+        msgs = [gen_msg(rng, j, want=w) for j, w in enumerate(wants)]
+        stream = hs + b''.join(m['raw'] for m in msgs)
+        fds = [d for m in msgs for d in m['fds']]
+        H = len(hs)
+        cands = {H - 2, H - 1, H, H + 1, H + 16, rng.randrange(1, H)}
+        pos = H
+        for m in msgs:
+            pos += len(m['raw'])
+            cands.add(pos)
+            cands.add(pos - 1)
+        cands = sorted(c for c in cands if 0 < c < len(stream))
+        cands = cands[:7]
+        shifted = [{'raw': b'\0' * H + msgs[0]['raw'], 'fds': msgs[0]['fds']}] + msgs[1:]
+        for k in range(len(cands) + 1):
+            for cs in itertools.combinations(cands, k):
+                reads = c04.cut(stream, list(cs))
+                dl = deadlines(shifted, reads)
+                for slots in all_slot_assignments(dl, len(reads)):
+                    B.add('recv-handshake', hs_scenario(mode, hs, script, msgs, interleave(reads, fds, slots)))
+    n = ctx.scale(quick=600, thorough=12000)
+    for i in range(n):
+        mode = modes[i % 4]
+        hs, script = handshake_of(rng, mode)
+        k = rng.choice([1, 2, 3, 5])
+        msgs = [gen_msg(rng, j) for j in range(k)]
+        stream = hs + b''.join(m['raw'] for m in msgs)
+        reads = c04.random_partition(rng, stream)
+        if rng.random() < 0.5:
+            # the final handshake line and message bytes in one read
+            a = rng.randrange(max(1, len(hs) - 8), len(hs) + 1)
+            b = rng.randrange(len(hs), len(stream) + 1)
+            reads = ([r for r in c04.random_partition(rng, stream[:a]) if r] + [stream[a:b]]
+                     + c04.random_partition(rng, stream[b:]))
+        if mode.endswith('server'):
+            reads = [r for r in reads if r] or [stream]
+        fds = [d for m in msgs for d in m['fds']]
+        shifted = [{'raw': b'\0' * len(hs) + msgs[0]['raw'], 'fds': msgs[0]['fds']}] + msgs[1:]
+        dl = deadlines(shifted, reads)
+        B.add('recv-handshake', hs_scenario(mode, hs, script, msgs,
+                                            interleave(reads, fds, random_slots(rng, dl, len(reads)))))
     B.flush()
 
 
@@ -617,6 +751,7 @@ def run(ctx):
     B.flush()
     stream_recv_exhaustive(ctx, B)
     stream_recv_random(ctx, B)
+    stream_recv_handshake(ctx, B)
     stream_recv_malformed(ctx, B)
     stream_sender(ctx)
 
